@@ -335,10 +335,14 @@ func init() {
 	reg("(*sync.Pool).Get", func(r *Run, caller *frame, _ *ssa.Function, args []Value) Value {
 		pool := poolKey(r, args[0])
 		key := fmt.Sprintf("pool:%p", pool)
+		r.yield("sync.Pool.Get")
 		items, _ := r.stubState[key].([]Value)
 		if len(items) > 0 {
 			it := items[len(items)-1]
 			r.stubState[key] = items[:len(items)-1]
+			// a Put happens before the Get that returns the item (the pool synchronises internally):
+			// what the earlier owner did to the item is ordered before this owner's accesses
+			r.hbAcquire(key)
 			return it
 		}
 		es := r.rd(pool)
@@ -354,8 +358,10 @@ func init() {
 		if ifc, ok := args[1].(Iface); ok && ifc.T == nil {
 			return nil
 		}
+		r.yield("sync.Pool.Put")
 		items, _ := r.stubState[key].([]Value)
 		r.stubState[key] = append(items, args[1])
+		r.hbRelease(key)
 		return nil
 	})
 
